@@ -7,7 +7,8 @@ import re
 import struct
 from typing import Any, Dict, List, Optional, Tuple
 
-from .. import chnm, codec, docs, parity
+from .. import chnm, codec, docs, parity, inline, guards, shape
+from . import c14
 from ..cfg import CFG
 from ..classmodel import all_controllers, all_options, class_const, module_classes
 from ..guards import canon_text
@@ -47,7 +48,6 @@ def run(repo: Repo, rep, tier: str):
 
 # ------------------------------------------------------------------------------------ R1
 def empty_synth_guard(repo: Repo, rep, P: str):
-    from .. import inline
     synth = repo.cls("Synth", module="rv.synth")
     fn = inline.flatten(repo, synth, repo.own_method(synth, "chunks"))
     rel = synth.file.rel
@@ -196,7 +196,6 @@ def sibling_writers(repo: Repo, rep, P: str):
         rep.ok(f"{P}.R2", scon, "stand-alone tail ≡ in-project tail", "sibling writers agree on all compared fields")
     rep.sample({"in_project_tail": {k: pd.get(k) for k in keys}, "stand_alone_tail": {k: sd.get(k) for k in keys}})
     # frozen difference: Synth.chunks recomputes attachment first
-    from .. import inline
     sfn = inline.normalize(repo, synth, repo.own_method(synth, "chunks"))
     p_rc = [inline.pos(n) for n in ast.walk(sfn) if (isinstance(n, ast.Attribute) and n.attr == "recompute_controller_attachment")
             or (isinstance(n, ast.Constant) and n.value == "recompute_controller_attachment")]
@@ -290,7 +289,6 @@ def cmid_reader_rule(repo: Repo, rep, P: str, rule: str):
     table.  The CMID chunk precedes the options chunk, so the sequence must not depend on attachment state."""
     from .. import alg
     mod = repo.cls("Module", module="rv.modules.module")
-    from .. import inline
     lc = inline.split_rebinds(inline.normalize(repo, mod, repo.own_method(mod, "load_cmid")))
     con = f"{mod.file.rel}:Module.load_cmid"
     where = f"{mod.file.rel}:{lc.lineno}"
@@ -504,8 +502,13 @@ def chnm_pairing(repo: Repo, rep, P: str):
     rep.count("chunk_numbers_checked", total, 39)
     # Module.specialized_iff_chunks: options or the (None, None) placeholder
     mod = repo.cls("Module", module="rv.modules.module")
-    src = norm(repo.own_method(mod, "specialized_iff_chunks"))
-    if "if self.options:" in src and "yield from self.options_chunks()" in src:
+    sic = inline.nest_guard_clauses(repo.own_method(mod, "specialized_iff_chunks"))
+    src = norm(sic)
+    gsic = CFG(sic)
+    dsic = gsic.dominators()
+    emits = [n for n in gsic.nodes if n.kind == "stmt" and isinstance(n.ast, ast.Expr) and isinstance(n.ast.value, ast.YieldFrom)
+             and norm(n.ast.value.value) == "self.options_chunks()"]
+    if emits and all(c14._facts(c14._dominating_conditions(gsic, dsic, n.id)) <= {"self.options", "nonempty(self.options)"} for n in emits):
         rep.ok(f"{P}.R3", f"{mod.file.rel}:Module.specialized_iff_chunks", "if self.options: yield from self.options_chunks()")
     else:
         rep.violation(f"{P}.R3", f"{mod.file.rel}:Module.specialized_iff_chunks", src[:120], "base writer no longer emits the options chunk",
@@ -622,7 +625,7 @@ def _array_decoder(repo: Repo, arr: ClassInfo, sb: ast.FunctionDef) -> Tuple[str
     """('ok' | '?' | 'bad', detail) for ArrayChunk._set_bytes: element k is decoded from value[k·es : (k+1)·es] with format
     '<' + self.type for k < len(value) // es, single-field elements unwrapped, converted by python_type and appended to a fresh
     self.values."""
-    from .. import alg, inline, packed
+    from .. import alg, packed
     fn = inline.split_rebinds(inline.normalize(repo, arr, sb, aliases=True))
     vparam = [a.arg for a in fn.args.args if a.arg != "self"][0]
     fdefs = packed.single_defs(fn)
@@ -705,7 +708,7 @@ def array_constants(repo: Repo, rep, P: str):
     sb = arr.methods.get("_set_bytes")
     if g is None or sb is None:
         raise AnchorMissing("ArrayChunk.bytes/_set_bytes")
-    from .. import alg, inline
+    from .. import alg
     from ..packed import single_defs, resolve_names
     gn = inline.normalize(repo, arr, g, aliases=True)
     gdefs = single_defs(gn)
@@ -909,8 +912,18 @@ def clone_rule(repo: Repo, rep, P: str):
                           "Module.clone must write Synth(self) and return the module of the synth read back", f"{rel}:{fn.lineno}")
     # the synth reader installs the module it read
     ssr = repo.cls("SunSynthReader", module="rv.readers.sunsynth")
-    s = norm(repo.own_method(ssr, "process_SFFF"))
-    if "self.rewind(data)" in s and "ModuleReader(self.f, index=1).object" in s and "self.object.module = mod" in s:
+    from ..packed import single_defs, resolve_names
+    sfff = inline.normalize(repo, ssr, repo.own_method(ssr, "process_SFFF"))
+    s = norm(sfff)
+    dparam = (shape.params(sfff) or ["data"])[0]
+    rewinds = [c for c in shape.calls_to(sfff, "rewind") if c.args and norm(c.args[0]) == dparam]
+    readers = [c for c in shape.calls_to(sfff, "ModuleReader") if c.args and norm(c.args[0]) == "self.f"
+               and ((shape.keyword(c, "index") is not None and norm(shape.keyword(c, "index")) == "1") or (len(c.args) > 1 and norm(c.args[1]) == "1"))]
+    sdefs = single_defs(sfff)
+    installs = [n for n in ast.walk(sfff) if isinstance(n, ast.Assign) and any(norm(t) == "self.object.module" for t in n.targets)]
+    installed = resolve_names(installs[-1].value, sdefs) if installs else None
+    if rewinds and readers and installed is not None and isinstance(installed, ast.Attribute) and installed.attr == "object" \
+            and any(installed.value is r or norm(installed.value) == norm(r) for r in readers):
         rep.ok(f"{P}.R6", f"{ssr.file.rel}:SunSynthReader.process_SFFF", "rewind; ModuleReader(index=1); synth.module = mod")
     else:
         rep.violation(f"{P}.R6", f"{ssr.file.rel}:SunSynthReader.process_SFFF", s[:160], "the synth reader must read one module and install it",
@@ -976,16 +989,20 @@ def drawn_waveforms(repo: Repo, rep, P: str):
     # omission ↔ default
     dw = repo.cls("DrawnWaveformChunk", module="rv.chunks.drawnwaveform")
     ch = repo.own_method(dw, "chunks")
-    s = norm(ch)
+    chn = inline.nest_guard_clauses(ch)
+    s = norm(chn)
     isd = dw.getters.get("is_default")
-    if "if self.is_default:" in s and "return" in s and "yield from super().chunks()" in s and isd is not None \
-            and norm(isd.body[-1]) == "return self.samples == self.default":
+    isd_e = inline.as_expression(inline.normalize(repo, dw, isd)) if isd is not None else None
+    gch = CFG(chn)
+    dch = gch.dominators()
+    writes = [n for n in gch.nodes if n.kind == "stmt" and isinstance(n.ast, ast.Expr) and isinstance(n.ast.value, ast.YieldFrom)
+              and norm(n.ast.value.value) in ("super().chunks()", "super(DrawnWaveformChunk, self).chunks()")]
+    guarded = bool(writes) and all(c14._facts(c14._dominating_conditions(gch, dch, n.id)) == {guards.canon_text("not self.is_default")} for n in writes)
+    if guarded and isd_e is not None and norm(isd_e) in ("self.samples == self.default", "self.default == self.samples"):
         rep.ok(f"{P}.R7", f"{dw.file.rel}:DrawnWaveformChunk.chunks", "not written iff samples == default")
     else:
         rep.violation(f"{P}.R7", f"{dw.file.rel}:DrawnWaveformChunk.chunks", s[:160], "a drawn waveform may be omitted only when it equals the default",
                       dw.file.rel)
-    from .. import inline, guards
-    from . import c14
     init0 = repo.own_method(wc, "__init__")
     init = inline.normalize(repo, wc, init0, aliases=True)
     si = norm(init)
